@@ -546,3 +546,313 @@ func keyOfBranch(k ssa.Value, depth int) bool {
 	}
 	return any
 }
+
+// ---- DEP-linkback (state trie): what a recursive step returns is installed -----------
+
+// depLinkBackMPT: the key returned by a recursive insert/delete step (insert,
+// insertLeaf, insertExtension, insertNode of a fresh node, delete) is installed
+// in the node being rebuilt (PutChild / NodeKey / constructor argument), handed
+// to setRoot, or returned. A key that is only compared with nil is a rebuilt
+// subtree nobody points to.
+func depLinkBackMPT(r *engine.Run, rule string) {
+	n := 0
+	for _, f := range mptFuncs(r) {
+		o := ord{}
+		engine.Instrs(f, func(in ssa.Instruction) {
+			c, ok := in.(*ssa.Call)
+			if !ok {
+				return
+			}
+			sc := c.Call.StaticCallee()
+			if sc == nil || recvNamed(sc) != "MerklePatriciaTrie" || sc.Signature.Results().Len() != 3 {
+				return
+			}
+			switch sc.Name() {
+			case "insert", "insertLeaf", "insertExtension", "insertNode", "insertAtNode", "insertAfterPathTraversal", "delete", "deleteAtNode", "deleteAfterPathTraversal", "liftOnlyChild":
+			default:
+				return
+			}
+			var key ssa.Value
+			for _, ref := range engine.Referrers(c) {
+				if ex, ok := ref.(*ssa.Extract); ok && ex.Index == 1 {
+					key = ex
+				}
+			}
+			if key == nil {
+				// the call's results are returned as a whole (return f(...)): fine
+				whole := false
+				for _, ref := range engine.Referrers(c) {
+					if ex, ok := ref.(*ssa.Extract); ok {
+						for _, r2 := range engine.Referrers(ex) {
+							if _, isRet := r2.(*ssa.Return); isRet {
+								whole = true
+							}
+						}
+					}
+				}
+				if len(engine.Referrers(c)) == 0 || !whole {
+					// result tuple dropped entirely is covered by ERR-dropped
+				}
+				return
+			}
+			if len(engine.Referrers(key)) == 0 {
+				return // discarded on purpose (the replay of a merge: the nodes are linked already)
+			}
+			n++
+			used := false
+			seen := map[ssa.Value]bool{}
+			var walk func(v ssa.Value)
+			walk = func(v ssa.Value) {
+				if seen[v] {
+					return
+				}
+				seen[v] = true
+				for _, ref := range engine.Referrers(v) {
+					switch x := ref.(type) {
+					case *ssa.Return, *ssa.Store, *ssa.MapUpdate:
+						used = true
+					case *ssa.Call:
+						used = true // PutChild, insertExtension, NewExtensionNode, setRoot, ...
+					case *ssa.Phi:
+						walk(x)
+					case *ssa.ChangeType:
+						walk(x)
+					case *ssa.MakeInterface:
+						walk(x)
+					}
+				}
+			}
+			walk(key)
+			r.Check(used, rule, o.next(fn(f)+"|key of "+sc.Name()), r.P.Pos(c.Pos()), "the returned key is installed, passed on or returned",
+				"the key of the subtree rebuilt by "+sc.Name()+" is never installed in its parent, handed to setRoot or returned: the change below this node is written to the store but nothing points to it")
+		})
+	}
+	if n < 10 {
+		r.Anchor(rule, fmt.Errorf("unresolved anchor: %d recursive steps with a used key result", n))
+	}
+}
+
+// depValueStored: an insert stores the value it was given: in insertAtNode and
+// insertAfterPathTraversal every path to a success return passes a call that
+// receives the value parameter (SetValue, insertLeaf, NewFullNode, the recursive
+// insert).
+func depValueStored(r *engine.Run, rule string) {
+	n := 0
+	for _, name := range []string{"insertAtNode", "insertAfterPathTraversal"} {
+		f := r.Fn(rule, pkgUtil, "MerklePatriciaTrie", name)
+		if f == nil {
+			continue
+		}
+		valP := f.Params[1]
+		uses := map[*ssa.BasicBlock]bool{}
+		engine.Instrs(f, func(in ssa.Instruction) {
+			c, ok := in.(ssa.CallInstruction)
+			if !ok {
+				return
+			}
+			for _, a := range c.Common().Args {
+				v := a
+				if mi, ok := v.(*ssa.MakeInterface); ok {
+					v = mi.X
+				}
+				if v == ssa.Value(valP) {
+					uses[in.Block()] = true
+				}
+			}
+		})
+		o := ord{}
+		for _, ret := range engine.Returns(f) {
+			if len(ret.Results) != 3 || !nilConst(resultValue(ret, 2)) && !isCallResult(resultValue(ret, 2)) {
+				continue
+			}
+			// error returns that hand back a failed call's error are not successes
+			if ev := resultValue(ret, 2); !nilConst(ev) {
+				if ex, ok := ev.(*ssa.Extract); ok {
+					if c, ok := ex.Tuple.(*ssa.Call); ok {
+						// return g(...): success or failure of g; g must have been given the value
+						given := false
+						for _, a := range c.Call.Args {
+							if a == ssa.Value(valP) {
+								given = true
+							}
+						}
+						if given {
+							continue
+						}
+					}
+				}
+			}
+			n++
+			good := uses[ret.Block()]
+			if !good {
+				paths, ok := engine.PathFactsAvoid(f, ret.Block(), uses, 4096)
+				good = ok && len(paths) == 0
+				if ok && len(paths) > 0 {
+					// paths on which the returned error is provably non-nil are not successes
+					good = provablyNonNil(f, ret.Block(), resultValue(ret, 2))
+				}
+			}
+			r.Check(good, rule, o.next(fn(f)+"|value reaches the trie"), r.P.Pos(ret.Pos()), "every path to the return hands the value to SetValue / insertLeaf / the recursive insert",
+				"an insert can succeed on a path that never stored the value it was given: the path stays without (or with its old) value while the operation reports success")
+		}
+	}
+	if n < 4 {
+		r.Anchor(rule, fmt.Errorf("unresolved anchor: %d returns of the insert arms", n))
+	}
+}
+
+func isCallResult(v ssa.Value) bool {
+	ex, ok := v.(*ssa.Extract)
+	if !ok {
+		return false
+	}
+	_, ok = ex.Tuple.(*ssa.Call)
+	return ok
+}
+
+// depRehome: a child that moves up (its parent disappears) gets a new position:
+// a clone of a node other than the one being replaced that is then inserted has
+// its Path assigned; a leaf also its Prefix.
+func depRehome(r *engine.Run, rule string) {
+	n := 0
+	for _, f := range mptFuncs(r) {
+		nodeP := paramRole(f, "node")
+		o := ord{}
+		engine.Instrs(f, func(in ssa.Instruction) {
+			ta, ok := in.(*ssa.TypeAssert)
+			if !ok || ta.CommaOk {
+				return
+			}
+			nm := namedOf(ta.AssertedType)
+			if nm == nil || (nm.Obj().Name() != "LeafNode" && nm.Obj().Name() != "ExtensionNode") {
+				return
+			}
+			cl, ok := ta.X.(*ssa.Call)
+			if !ok || !cl.Call.IsInvoke() || cl.Call.Method.Name() != "Clone" {
+				return
+			}
+			// whose clone? the node being replaced (an update in place) or another node (a move)
+			src := cl.Call.Value
+			for {
+				if t2, ok := src.(*ssa.TypeAssert); ok {
+					src = t2.X
+					continue
+				}
+				if ex, ok := src.(*ssa.Extract); ok {
+					if t2, ok := ex.Tuple.(*ssa.TypeAssert); ok {
+						src = t2.X
+						continue
+					}
+				}
+				break
+			}
+			if src == nodeP {
+				return
+			}
+			// inserted as the replacement?
+			inserted := false
+			for _, ref := range engine.Referrers(ta) {
+				if mi, ok := ref.(*ssa.MakeInterface); ok {
+					for _, r2 := range engine.Referrers(mi) {
+						if c2, ok := r2.(*ssa.Call); ok && staticCalleeIs(c2, pkgUtil, "MerklePatriciaTrie", "insertNode") {
+							inserted = true
+						}
+						if ph, ok := r2.(*ssa.Phi); ok {
+							for _, r3 := range engine.Referrers(ph) {
+								if c3, ok := r3.(*ssa.Call); ok && staticCalleeIs(c3, pkgUtil, "MerklePatriciaTrie", "insertNode") {
+									inserted = true
+								}
+							}
+						}
+					}
+				}
+			}
+			if !inserted {
+				return
+			}
+			n++
+			set := map[string]bool{}
+			for _, ref := range engine.Referrers(ta) {
+				if fa, ok := ref.(*ssa.FieldAddr); ok {
+					for _, r2 := range engine.Referrers(fa) {
+						if st, ok := r2.(*ssa.Store); ok && st.Addr == ssa.Value(fa) {
+							set[engine.FieldOf(fa).Name()] = true
+						}
+					}
+				}
+			}
+			need := []string{"Path"}
+			if nm.Obj().Name() == "LeafNode" {
+				need = append(need, "Prefix")
+			}
+			missing := ""
+			for _, k := range need {
+				if !set[k] {
+					missing += " " + k
+				}
+			}
+			r.Check(missing == "", rule, o.next(fn(f)+"|moved *"+nm.Obj().Name()), r.P.Pos(ta.Pos()), "the moved node's position fields are reassigned",
+				"a child that moves up to replace its parent keeps its old"+missing+": its path no longer spells the key it is stored under, so lookups of that entry fail and the root differs from a fresh build")
+		})
+	}
+	if n < 3 {
+		r.Anchor(rule, fmt.Errorf("unresolved anchor: %d moved child clones found", n))
+	}
+}
+
+// domRootInstalled: a successful Insert/Delete installs the new root: every
+// success return of Insert and Delete that follows a trie walk is dominated by
+// setRoot.
+func domRootInstalled(r *engine.Run, rule string) {
+	n := 0
+	for _, name := range []string{"Insert", "Delete"} {
+		f := r.Fn(rule, pkgUtil, "MerklePatriciaTrie", name)
+		if f == nil {
+			continue
+		}
+		var walks, sets []*ssa.Call
+		engine.Instrs(f, func(in ssa.Instruction) {
+			c, ok := in.(*ssa.Call)
+			if !ok {
+				return
+			}
+			sc := c.Call.StaticCallee()
+			if sc == nil || recvNamed(sc) != "MerklePatriciaTrie" {
+				return
+			}
+			switch sc.Name() {
+			case "insert", "insertLeaf", "delete":
+				walks = append(walks, c)
+			case "setRoot":
+				sets = append(sets, c)
+			}
+		})
+		o := ord{}
+		for _, ret := range engine.Returns(f) {
+			if len(ret.Results) != 2 || !nilConst(resultValue(ret, 1)) {
+				continue
+			}
+			walked := false
+			for _, w := range walks {
+				if engine.ReachableAfter(w, ret) {
+					walked = true
+				}
+			}
+			if !walked {
+				continue
+			}
+			n++
+			good := false
+			for _, s := range sets {
+				if engine.InstrDominates(s, ret) {
+					good = true
+				}
+			}
+			r.Check(good, rule, o.next(fn(f)+"|success installs the root"), r.P.Pos(ret.Pos()), "setRoot dominates the success return",
+				"the operation rebuilds the trie and reports success without installing the new root: the trie keeps answering from the old root")
+		}
+	}
+	if n < 2 {
+		r.Anchor(rule, fmt.Errorf("unresolved anchor: %d success returns after a walk in Insert/Delete", n))
+	}
+}
